@@ -15,22 +15,25 @@ DESIGN_REF = "§5 C11"
 TECHNIQUE = ("Coq proof: every read API of the static map, written as the search/descend recursion of node_cursor.go over a tree of arbitrary "
              "well-formed shape, equals the sorted-dictionary function of flatten(t); mutable map = edit log + checkpoint + stash state machine refined "
              "to (current, checkpoint) dictionaries; in-Coq correspondence on the real tree shape dumped from the implementation")
-LEVEL_TEXT = ("Proof (F/P): for every well-formed tree of any depth and fan-out, Get/Has/GetPrefix/HasPrefix/IterAll/IterAllReverse/IterKeyRange/"
+LEVEL_TEXT = ("Proof (F/M): (1) for every well-formed tree of any depth and fan-out, Get/Has/GetPrefix/HasPrefix/IterAll/IterAllReverse/IterKeyRange/"
               "IterOrdinalRange/FetchOrdinalRange/GetOrdinalForKey/GetKeyRangeCardinality/Count/LastKey of the model equal the dictionary functions of "
-              "the flattened contents (full; IterKeyRange except the one configuration refuted below). Mutable map: point reads proved to refine the "
-              "dictionary for Put/Delete/Checkpoint sequences below the flush threshold (partial); the full statement over all op sequences and all "
-              "reads is refuted by five machine-checked witnesses that reproduce on the real code (IterKeyRange ignores pending edits; GetPrefix/"
-              "HasPrefix shadowed by a pending edit; Revert after a flush loses a checkpoint taken on an empty buffer; a second Revert after a stashed "
-              "checkpoint keeps later writes; StaticMap.IterKeyRange(start above every key, nil) runs off the last leaf). Flushes, reverts and "
-              "iteration reads of the mutable map rest on the correspondence (model = implementation on every generated op sequence).")
-LEVEL_NOTE = ("Trusted: Coq kernel, Go harness + Python glue. The API functions are defined by structural recursion on the tree (binary search per "
-              "level, keepInBounds, cached subtree counts) — the step-by-step cursor advance/compare loop of OrderedTreeIter is represented by the "
-              "ordinal window it visits. Modelled, not verified: tuple comparator (abstracted as the order on N), chunker/ApplyMutations (any tree "
-              "with the right contents; shape fed from the implementation), node store, skip-list towers (the list is modelled as its node array + "
-              "checkpoint index).")
+              "the flattened contents, and the executable oracle accepts the model's observation on every static case (static_oracle_holds). "
+              "(2) mutable_refines: for every rebuild function and every Put/Delete/Checkpoint/Revert/flush(deep or not, automatic or explicit) "
+              "sequence satisfying the decidable side condition hist_ok (no Revert across a flush since the governing checkpoint), Get/Has/IterAll/"
+              "IterRange/Map() of the mutable map equal the reads of the dictionary obtained by applying the operations; GetPrefix/HasPrefix under "
+              "'no pending edit has that prefix', IterKeyRange under 'no pending edit'. The excluded configurations are refuted by five "
+              "machine-checked witnesses that reproduce on the real code (IterKeyRange ignores pending edits; GetPrefix/HasPrefix shadowed by a "
+              "pending edit; Revert after a flush loses a checkpoint taken on an empty buffer; a second Revert after a stashed checkpoint keeps later "
+              "writes; StaticMap.IterKeyRange(start above every key, nil) runs off the last leaf).")
+LEVEL_NOTE = ("Trusted: Coq kernel, Go harness + Python glue. The static API functions are defined by structural recursion on the tree (binary search per "
+              "level, keepInBounds, cached subtree counts); the cursor advance/compare loop of OrderedTreeIter is represented by the ordinal window it "
+              "visits. hist_ok is sufficient, not necessary: the history 'checkpoint on a non-empty buffer, flush, one Revert', which the stash handles "
+              "correctly, is outside the proved set and rests on the correspondence. Modelled, not verified: tuple comparator (order on N), "
+              "chunker/ApplyMutations (any tree with the right contents: rb_ok; shape fed from the implementation), node store, skip-list towers "
+              "(the list is its node array + checkpoint index).")
 THEOREMS = ["search_spec", "get_spec", "has_spec", "get_prefix_spec", "has_prefix_spec", "iter_all_spec", "iter_all_reverse_spec",
             "iter_key_range_spec", "iter_window_spec", "key_range_cardinality_spec", "ordinal_for_key_spec", "iter_ordinal_range_spec", "count_spec",
-            "last_key_spec", "mutable_get_refines_partial"]
+            "last_key_spec", "static_oracle_holds", "mutable_refines", "mutable_get_refines_partial"]
 REFUTED = ["iter_key_range_open_stop_refuted", "iter_key_range_refuted", "get_prefix_refuted", "revert_empty_checkpoint_refuted", "second_revert_refuted"]
 RULE = ("maps of 0..600 entries over (uint32,uint32,pad) keys with pad widths chosen so that trees have 1..4 levels; probes = present, absent, "
         "below-min, above-max keys, every bound combination incl. unbounded/empty/inverted, ordinal ranges incl. the error cases; mutable cases = "
